@@ -2,7 +2,8 @@
  Property theorems only; proofs are in proofs/ServerProofs.v and proofs/ServerProgress.v.
 
  PARTIAL by design: the theorems quantify over ALL event sequences (arrivals,
- gather-timeout expiries and model completions in any order and at any times)
+ wake-ups of the worker, gather-timeout expiries and model completions in any
+ order and at any times)
  of the MODEL of Server.worker_loop / Server.Evaluate in model/Server.v.
  Real thread scheduling, the gRPC transport and cancellation races (a client
  that goes away while queued, a timeout that expires in the same loop
@@ -42,9 +43,9 @@ Theorem C17_no_loss_partial : forall A frow evs r, In r (arrivals evs) ->
   In r (map fst (answers (run A frow evs))) \/ In r (batch_of (run A frow evs)) \/ In r (queue (run A frow evs)) \/ In r (blocked (run A frow evs)).
 Proof. exact no_loss. Qed.
 
-(* ... and when the worker is idle again everybody has been answered, in arrival order *)
+(* ... and when the worker is idle on an empty queue everybody has been answered, in arrival order *)
 Theorem C17_quiescent_all_answered_partial : forall A frow evs,
-  wk (run A frow evs) = Idle -> map fst (answers (run A frow evs)) = arrivals evs.
+  wk (run A frow evs) = Idle -> queue (run A frow evs) = [] -> map fst (answers (run A frow evs)) = arrivals evs.
 Proof. exact quiescent_all_answered. Qed.
 
 (* "no request stays unanswered while the model keeps answering": a request with k requests ahead of
@@ -83,6 +84,13 @@ Theorem C17_batch_order_fifo_partial : forall A frow evs,
   concat (map snd (started (run A frow evs))) ++
     (match wk (run A frow evs) with Gathering b _ => b | _ => [] end) ++ queue (run A frow evs) ++ blocked (run A frow evs) = arrivals evs.
 Proof. exact batch_order_fifo. Qed.
+
+(* size of a model call: never empty, at most threshold - 1 + MAX_QUEUE_DEPTH = 87 requests (NOT at most the queue
+   depth: up to threshold - 1 requests are gathered before a full queue is drained without suspending);
+   the bound is reached: Example ex_batch_87 in proofs/ServerProofs.v *)
+Theorem C17_batch_size_bound_partial : forall A frow evs t b,
+  In (t, b) (started (run A frow evs)) -> b <> [] /\ qlen b <= threshold - 1 + cap.
+Proof. exact batch_size_bound. Qed.
 
 (* "the client turns the served reply back into the same policy vector": float32 words -> bytes -> words *)
 Theorem C17_bytes_roundtrip : forall ws, Forall is_word ws -> decode_bytes (encode_words ws) = Some ws.
